@@ -313,12 +313,14 @@ PROFILES = {
 FAULT_KINDS = ("set_bad", "mutate", "decode_fail", "encode_fail", "flood")
 
 
-def gen_history(rng, prop):
+def gen_history(rng, prop, tier="quick"):
     """-> (cfg, ops).  First the swarm configuration, then the op list."""
     prof = dict(PROFILES[prop])
-    cfg = {}
+    cfg = {"tier": tier}
     cfg["fault_free"] = rng.random() < 0.15
     cfg["length"] = rng.choice((3, 4, 5, 6, 6, 8, 10, 12, 12, 16, 20, 25, 30, 40, 60))
+    if tier == "thorough" and rng.random() < 0.15:
+        cfg["length"] = rng.choice((80, 120, 200))      # deeper bound of the thorough tier
     cfg["families"] = rng.choice((("preset",), ("preset", "tweak"), ("tweak", "small"),
                                   ("preset", "tweak", "small", "large"), ("charges", "tweak"),
                                   ("preset", "tweak", "small", "large", "charges")))
@@ -464,7 +466,8 @@ class _GenState:
             yield {"op": "observe"}
         elif kind == "alpha_decode":
             yield {"op": "alpha_decode", "seed": rng.getrandbits(30),
-                   "count": rng.choice((4, 8, 16, 30)), "maxlen": rng.choice((5, 20, 60, 200))}
+                   "count": rng.choice((4, 8, 16, 30)),
+                   "maxlen": rng.choice((5, 20, 60, 200) if self.cfg["tier"] == "quick" else (5, 20, 60, 200, 500, 1000))}
 
     def _bad_of(self, x):
         for b in INVALID:
